@@ -495,6 +495,12 @@ LEGAL = [
      'REQUIRE_CALL_V(m, f(trompeloeil::_), .WITH(_1 > 0) .IN_SEQUENCE(gseq) .TIMES(2) .SIDE_EFFECT(++gi) .RETURN(1)); ALLOW_CALL_V(m, f(1), .RETURN(0)); FORBID_CALL_V(m, f(2)); FORBID_CALL_V(m, f(3), .WITH(_1 == 3) .LR_WITH(gi == 0));'
      ' REQUIRE_CALL_V(m, v(1)); ALLOW_CALL_V(m, v(2)); REQUIRE_CALL_V(m, v(3), .TIMES(AT_LEAST(1)) .LR_SIDE_EFFECT(++gi) .THROW(1));'
      ' auto e = NAMED_REQUIRE_CALL_V(m, f(4), .RETURN(0)); auto e2 = NAMED_ALLOW_CALL_V(m, f(5), .LR_RETURN(gi)); auto e3 = NAMED_FORBID_CALL_V(m, f(6)); auto e4 = NAMED_FORBID_CALL_V(m, f(7), .WITH(_1 == 7)); auto e5 = NAMED_ALLOW_CALL_V(m, v(4)); (void)e; (void)e2; (void)e3; (void)e4; (void)e5;'),
+    ('trailing specifiers on MAKE_MOCK / MAKE_CONST_MOCK and the IMPLEMENT_MOCK family on mock_interface',
+     'MAKE_MOCK0(unused, void()); };\nstruct IF { virtual ~IF() = default; virtual int f(int) = 0; virtual void g(int) const = 0; virtual int h() noexcept = 0; virtual int k(int, int) const noexcept = 0; };\n'
+     'struct MI : IF {\n  MAKE_MOCK1(f, int(int), override);\n  MAKE_CONST_MOCK1(g, void(int), override);\n  MAKE_MOCK0(h, int(), noexcept override);\n  MAKE_CONST_MOCK2(k, int(int, int), noexcept override final);\n};\n'
+     'struct MJ : trompeloeil::mock_interface<IF> {\n  IMPLEMENT_MOCK1(f);\n  IMPLEMENT_CONST_MOCK1(g);\n  IMPLEMENT_MOCK0(h, noexcept);\n  IMPLEMENT_CONST_MOCK2(k, noexcept);\n',
+     'MI mi; const MI& cmi = mi; REQUIRE_CALL(mi, f(1)).RETURN(0); REQUIRE_CALL(cmi, g(trompeloeil::_)); ALLOW_CALL(mi, h()).RETURN(1); FORBID_CALL(cmi, k(1, trompeloeil::_)); IF& i = mi; (void)i.f(1); i.g(2);'
+     ' MJ mj; const MJ& cmj = mj; REQUIRE_CALL(mj, f(trompeloeil::gt(0))).RETURN(_1); ALLOW_CALL(cmj, g(trompeloeil::_)).WITH(_1 > 0); REQUIRE_CALL(mj, h()).TIMES(AT_MOST(2)).RETURN(3); REQUIRE_CALL(cmj, k(trompeloeil::_, trompeloeil::_)).RETURN(_1 + _2); IF& j = mj; (void)j.f(1);'),
     # the long-macro configuration: every prefixed macro must work on its own (the short names do not exist)
     ('LONG_MACROS: every prefixed expectation macro and clause', 'TROMPELOEIL_MAKE_MOCK1(f, int(int));\n  TROMPELOEIL_MAKE_CONST_MOCK1(c, void(int));',  # one MAKE_MOCK per source line
      'int loc = 0; TROMPELOEIL_REQUIRE_CALL(m, f(trompeloeil::_)).TROMPELOEIL_WITH(_1 > 0).TROMPELOEIL_LR_WITH(_1 > loc).TROMPELOEIL_IN_SEQUENCE(gseq).TROMPELOEIL_TIMES(TROMPELOEIL_AT_LEAST(1)).TROMPELOEIL_SIDE_EFFECT(++gi).TROMPELOEIL_LR_SIDE_EFFECT(++loc).TROMPELOEIL_RETURN(1);'
